@@ -314,7 +314,67 @@ def h_reply(eng, case):
     eng.reach('end')
 
 
-HARNESSES = {'dispatch_v2': h_dispatch_v2, 'dispatch_v1': h_dispatch_v1, 'dispatch_disp': h_dispatch_disp,
+def h_swap(eng, case):
+    """the handler table changes while the validator of a parameterised / signed Interest is suspended (a longer prefix
+    is attached, the matched prefix is detached and attached again, or detached while a shorter one stays, an unrelated
+    prefix is attached).  An attached prefix matches the name at every moment, so the Interest must reach exactly one
+    handler: the one that matched on arrival or the one that matches when the validator returns"""
+    import ndn.encoding as enc
+    import ndn.types as types
+    env.symbolic_env(eng)
+    app, face = appenv.make_app('v2')
+    calls = []
+
+    def mk_handler(tag):
+        def handler(name, app_param, reply, context):
+            calls.append(tag)
+        return handler
+
+    def mk_validator(slow):
+        async def validator(name, sig, ctx):
+            if slow:
+                await asyncio.sleep(0.010)
+            return types.ValidResult.PASS
+        return validator
+    reps = [lambda s: s, lambda s: enc.Name.from_str(s), lambda s: enc.Name.to_bytes(s)]
+    rep = reps[eng.choice(3, 'repr')]
+    app.attach_handler('/', mk_handler('root'), mk_validator(False))
+    app.attach_handler(rep('/p'), mk_handler('p'), mk_validator(True))
+    signer = env.make_signer(eng, 'hmac', for_interest=True) if eng.choice(2, 'signed?') else None
+    wire = bytes(enc.make_interest('/p/x/y', enc.InterestParam(nonce=5, lifetime=4000), b'a', signer))
+    op = ['none', 'attach-longer', 'reattach', 'detach', 'attach-unrelated'][eng.choice(5, 'table-op')]
+
+    async def main(loop):
+        await app._receive(5, wire)
+        await asyncio.sleep(0.002)                  # the validator of /p is suspended now
+        if op == 'attach-longer':
+            app.attach_handler(rep('/p/x'), mk_handler('px'), mk_validator(False))
+        elif op == 'reattach':
+            app.detach_handler(rep('/p'))
+            app.attach_handler(rep('/p'), mk_handler('p2'), mk_validator(False))
+        elif op == 'detach':
+            app.detach_handler(rep('/p'))
+        elif op == 'attach-unrelated':
+            app.attach_handler(rep('/q'), mk_handler('q'), mk_validator(False))
+        await asyncio.sleep(0.050)
+    loop, r, err = appenv.run(eng, main)
+    if err == 'deadlock':
+        eng.fail('longest-prefix', 'deadlock')
+        return
+    if loop.errors:
+        exc = loop.errors[0].get('exception')
+        eng.fail('no-unhandled-error-in-loop', exc_sig(exc) if exc is not None else str(loop.errors[0].get('message')))
+        return
+    admissible = {'none': ['p'], 'attach-longer': ['p', 'px'], 'reattach': ['p', 'p2'], 'detach': ['p', 'root'],
+                  'attach-unrelated': ['p']}[op]
+    eng.check(len(calls) == 1 and calls[0] in admissible, 'longest-prefix',
+              {'calls': list(calls), 'admissible': admissible, 'table_op': op},
+              sig='table-changed-during-validation:' + ('no-handler' if not calls else 'wrong-or-several-handlers'))
+    eng.observe('calls', list(calls))
+    eng.reach('end')
+
+
+HARNESSES = {'swap': h_swap, 'dispatch_v2': h_dispatch_v2, 'dispatch_v1': h_dispatch_v1, 'dispatch_disp': h_dispatch_disp,
              'reply': h_reply}
 
 
@@ -356,5 +416,6 @@ def cases(tier, seed):
         if not quick:
             cs.append((h, {'ops': 4, 'reprs': [0, 3, 1, 2], 'prefixes': sub[1:]}, {'weight': 2000, 'split_depth': 5}))
     cs.append(('reply', {}))
+    cs.append(('swap', {}, {'weight': 5}))
     cs.append(('reply', {'busy': True}))
     return cs
